@@ -20,13 +20,14 @@ PRELUDE_DECLS = [
     ("St", "pub struct St { pub a: u8, pub b: u32 }"),
     ("Nest", "pub struct Nest { pub s: St, pub e: En, pub f: f64 }"),
     ("SB", "pub struct SB<'a> { pub r: &'a Op }"),
+    ("SB2", "pub struct SB2<'a, 'b> { pub x: SB<'a>, pub y: SB<'b> }"),
     ("OutSt", "#[diplomat::out]\n    pub struct OutSt { pub b: Box<Op>, pub n: i32 }"),
     ("Zst", "pub struct Zst {}"),
 ]
-PRELUDE_DEPS = {"Nest": ["St", "En"], "SB": ["Op"], "OutSt": ["Op"]}
-PRELUDE_KIND = {"Op": "opaque", "OpL": "opaque", "En": "enum", "St": "struct", "Nest": "struct", "SB": "struct",
+PRELUDE_DEPS = {"Nest": ["St", "En"], "SB": ["Op"], "SB2": ["SB"], "OutSt": ["Op"]}
+PRELUDE_KIND = {"Op": "opaque", "OpL": "opaque", "En": "enum", "St": "struct", "Nest": "struct", "SB": "struct", "SB2": "struct",
                 "OutSt": "outstruct", "Zst": "struct"}
-PRELUDE_LT = {"OpL", "SB"}
+PRELUDE_LT = {"OpL", "SB", "SB2"}
 
 
 def _ws(s):
